@@ -310,6 +310,8 @@ func evalToken(line string) (out string, rd string) {
 		return tokConcurrent(f[1], f[2]), line
 	case "go.cmd.history":
 		return cmdHistory(), line
+	case "go.ctor.wf":
+		return ctorWellFormed(), line
 	case "go.lit.nodes":
 		return literalNodes(), line
 	case "go.lit.exact":
@@ -543,6 +545,7 @@ func runTokenStream(c *ctx) error {
 	}
 	c.emit("go.cmd.history 0", "literal.exact", true, "cmd-history")
 	c.emit("go.lit.nodes 0", "literal.exact", true, "literal-nodes")
+	c.emit("go.ctor.wf 0", "literal.exact", true, "ctor-wellformed")
 	// (roundtrip) constructor-built tokens
 	rtAlgs := []string{"ed25519", "secp256k1", "p256", "p384", "p521", "rsa"}
 	masks := 128
@@ -632,8 +635,63 @@ func tokConcurrent(kind, alg string) string {
 	if _, _, err := token.FromSealed(genuine); err != nil {
 		return "genuine token refused: " + err.Error()
 	}
+	// the same payload (issuer k) signed by ANOTHER principal of the same algorithm, and that principal's own genuine token
+	other := keyFor(alg, 5)
+	impostor, _ := sealText(mk(fs), other.priv, nil, "")
+	otherFs := append([]pfield(nil), fs...)
+	for i := range otherFs {
+		if otherFs[i].k == "iss" {
+			otherFs[i].v = str(other.did.String())
+		}
+	}
+	otherGenuine, _ := sealText(mk(otherFs), other.priv, nil, "")
 	var wg sync.WaitGroup
 	bad := make(chan string, 16)
+	for g := 0; g < 4; g++ {
+		wg.Add(1)
+		go func(g int) {
+			defer wg.Done()
+			defer func() {
+				if r := recover(); r != nil {
+					bad <- fmt.Sprint("panic ", r)
+				}
+			}()
+			for r := 0; r < 6000; r++ {
+				switch g {
+				case 0:
+					if _, err := k.did.PubKey(); err != nil {
+						bad <- "PubKey failed under concurrency: " + err.Error()
+						return
+					}
+				case 1:
+					if _, err := other.did.PubKey(); err != nil {
+						bad <- "PubKey failed under concurrency: " + err.Error()
+						return
+					}
+				case 2:
+					if otherGenuine != nil {
+						if _, _, err := token.FromSealed(otherGenuine); err != nil {
+							bad <- "genuine token of the second principal refused under concurrency: " + err.Error()
+							return
+						}
+					}
+				default:
+					if impostor != nil {
+						if _, _, err := token.FromSealed(impostor); err == nil {
+							bad <- "a token naming one issuer but signed by another principal was accepted while both keys were being extracted concurrently"
+							return
+						}
+					}
+				}
+			}
+		}(g)
+	}
+	wg.Wait()
+	select {
+	case m := <-bad:
+		return m
+	default:
+	}
 	for g := 0; g < 8; g++ {
 		wg.Add(1)
 		go func(g int) {
